@@ -137,6 +137,22 @@ MUTATIONS = {
         ["C08", "C02"],
         [("flox/core.py", "            and reindex.blockwise is True\n", "            and reindex.blockwise is None\n")],
     ),
+    "digitize_right_flipped": (
+        ["C07"],
+        [("flox/core.py", "                right=right,\n", "                right=not right,\n")],
+    ),
+    "within_bins_strict": (
+        ["C07"],
+        [("flox/core.py", "within_bins = flat <= bins.max() if right else flat < bins.max()", "within_bins = flat < bins.max()")],
+    ),
+    "ravel_mask_dropped": (
+        ["C07"],
+        [("flox/core.py", "    group_idx[nan_by_mask] = -1\n    return group_idx", "    return group_idx")],
+    ),
+    "reindex_full_like_reverted": (
+        ["C12", "C07"],
+        [("flox/core.py", "reindexed = np.full_like(array, fill_value, shape=shape)", "reindexed = np.full(shape, fill_value, dtype=array.dtype)")],
+    ),
     "nanmin_combine_min": (
         ["C04"],
         [("flox/aggregations.py", '    chunk="nanmin",\n    combine="nanmin",', '    chunk="nanmin",\n    combine="min",')],
